@@ -63,6 +63,8 @@ var (
 	// "a/c" sorts after "b" in the store's hierarchical order (more path segments) and before it bytewise:
 	// the range is wider than [a,b) although its end bound is the bytewise smaller one
 	rADeep = rng{"a", "a/c"} // {a, b, a/b}
+	// an empty end bound means no upper bound
+	rAOpen = rng{"a", ""} // {a, b, a/b}
 )
 
 // sequence prefix of the "refusals" alphabet and a key under it that is no sequence number
@@ -81,7 +83,7 @@ func inRange(r rng, key string) bool {
 		return key == "a" || key == "b"
 	case rASub:
 		return key == "a/b"
-	case rADeep:
+	case rADeep, rAOpen:
 		return key == "a" || key == "b" || key == "a/b"
 	case rST:
 		return strings.HasPrefix(key, seqPrefix+"-")
@@ -352,6 +354,12 @@ func buildOps() []opDef {
 		}},
 		opDef{name: "deleteRange[a,b)+deleteRange[a,a/c)", build: func(*inst, int64) *proto.WriteRequest {
 			return &proto.WriteRequest{DeleteRanges: []*proto.DeleteRangeRequest{dr(rAB), dr(rADeep)}}
+		}},
+		opDef{name: "deleteRange[a,)+deleteRange[a,b)", build: func(*inst, int64) *proto.WriteRequest {
+			return &proto.WriteRequest{DeleteRanges: []*proto.DeleteRangeRequest{dr(rAOpen), dr(rAB)}}
+		}},
+		opDef{name: "deleteRange[a,b)+deleteRange[a,)", build: func(*inst, int64) *proto.WriteRequest {
+			return &proto.WriteRequest{DeleteRanges: []*proto.DeleteRangeRequest{dr(rAB), dr(rAOpen)}}
 		}},
 		opDef{name: "createSession", build: func(in *inst, off int64) *proto.WriteRequest {
 			if in.sessLive {
